@@ -150,6 +150,9 @@ class Explorer:
     def _ev(self, e, env, k):
         if isinstance(e, ast.Constant):
             return e.value
+        if isinstance(e, ast.Name) and e.id in self.func.aliases and e.id not in env and self.func.aliases[e.id] is not e:
+            # single-assignment local alias of an attribute chain (`pool = server.pool`): the value of the chain
+            return self.ev(self.func.aliases[e.id], env)
         if isinstance(e, (ast.Name, ast.Attribute)) and k is not None and (self.repo.has_cls(k) or k in ("ssl.SSLError",) or
                                                                            (isinstance(e, ast.Name) and k == e.id and k not in self.func.locals and _is_builtin_class(k))):
             from .index import ClassRef
